@@ -5,6 +5,7 @@ INVARIANT LBrackets
 INVARIANT LRefs
 INVARIANT LScopeExact
 INVARIANT LWith
+INVARIANT LDup
 INVARIANT LShape
 INVARIANT LMisc
 CHECK_DEADLOCK FALSE
